@@ -165,7 +165,9 @@ def _solve_z3_uncached(args):
         r = _run_z3_cli(path, min(2.0, timeout_ms / 1000.0))
         if r in ("sat", "unsat"):
             return r, None, time.time() - t0, "", "z3"
-        r2, _s2 = solve_cvc5(text, min(8.0, timeout_ms / 1000.0))
+        # cvc5 decides several quantified obligations of the splitter in 4-10 s that z3 does not decide at all: its budget is
+        # sized so that the verdict does not flip when all 16 cores are busy
+        r2, _s2 = solve_cvc5(text, min(25.0, 2.5 * timeout_ms / 1000.0))
         if r2 in ("sat", "unsat"):
             return r2, None, time.time() - t0, "", "cvc5"
         reason = r
@@ -186,7 +188,7 @@ def _solve_z3_uncached(args):
             for opts, tmo in (((), timeout_ms / 2000.0), (("smt.mbqi=false",), timeout_ms / 2000.0)):
                 if _run_z3_cli(path, max(1.0, tmo), opts) == "unsat":
                     return "unsat", None, time.time() - t0, "proved without the string-function facts", "z3(lite)"
-            if solve_cvc5(lite, min(8.0, timeout_ms / 1000.0))[0] == "unsat":
+            if solve_cvc5(lite, min(25.0, 2.5 * timeout_ms / 1000.0))[0] == "unsat":
                 return "unsat", None, time.time() - t0, "proved without the string-function facts", "cvc5(lite)"
         return "unknown", None, time.time() - t0, "timeout" if reason == "unknown" else reason, "z3"
     finally:
